@@ -77,11 +77,11 @@ func globMatch(pat, s string) bool {
 }
 
 type failure struct {
-	r        *OblResult
-	known    []*knownFinding
-	replay   string
+	r         *OblResult
+	known     []*knownFinding
+	replay    string
 	confirmed bool
-	note     string
+	note      string
 }
 
 func report(cfg *runConfig, cs *ContractSet, out *genOutput, results []*OblResult, tLoad, tGen, wall float64) int {
@@ -236,7 +236,7 @@ func report(cfg *runConfig, cs *ContractSet, out *genOutput, results []*OblResul
 		if len(samples) < 6 || (i%17 == 0 && len(samples) < 10) {
 			samples = append(samples, map[string]any{
 				"obligation": r.O.Name, "function": r.O.FuncKey, "kind": r.O.Kind, "statement": r.O.Desc,
-				"source": fmt.Sprintf("%s:%d", shortFile(r.O.Pos.Filename), r.O.Pos.Line),
+				"source":    fmt.Sprintf("%s:%d", shortFile(r.O.Pos.Filename), r.O.Pos.Line),
 				"smt_bytes": r.SMT, "answer": r.R.Answer, "solver": r.R.Solver, "seconds": round3(r.R.Seconds), "float_mode": r.O.Mode,
 			})
 		}
@@ -280,15 +280,15 @@ func report(cfg *runConfig, cs *ContractSet, out *genOutput, results []*OblResul
 		// here and broken out below
 		"obligations": nObl, "discharged": nDis + nKnown,
 		"discharged_unconditionally": nDis, "discharged_outside_known_finding_class": nKnown,
-		"checker_cmd": fmt.Sprintf("/verif/check %s --tier %s", cfg.prop, cfg.tier),
+		"checker_cmd":  fmt.Sprintf("/verif/check %s --tier %s", cfg.prop, cfg.tier),
 		"trusted_base": trusted, "functions": out.funcs, "by_solver": bySolver, "solver_seconds": round3(solverSeconds),
 		"load_seconds": round3(tLoad), "vcgen_seconds": round3(tGen),
 		"samples": samples, "slowest": slowest, "failed": failed, "known_findings_matched": knownMatched,
-		"vacuity": map[string]any{"cover_checks": nCover, "cover_unreachable": coverWarn},
+		"vacuity":          map[string]any{"cover_checks": nCover, "cover_unreachable": coverWarn},
 		"obligation_names": names, "real_mode_obligations": realMode,
 		"translation_errors": out.errs, "binding_errors": out.binds,
 		"preconditions_unverified_at_callers": out.callers,
-		"undischarged_known_findings": nKnown, "violations_reported": nViol,
+		"undischarged_known_findings":         nKnown, "violations_reported": nViol,
 		"timeout_s": cfg.timeout,
 	}
 	if rem, ok := remainders[cfg.prop]; ok {
